@@ -449,6 +449,38 @@ def run(ctx, prog, rule="R-LATCH", want_c16=False):
                    ok, fn.where,
                    "Ok-exit latch classes %s" % sorted(got) if ok else
                    "%s can return Ok in latch class %s: a byte beyond the value was read" % (nm, sorted(got - want)))
+            if nm == "parseNumericValue":
+                # parse() judges "trailing characters after a float" by Latch::last(): that is the
+                # character following the number only if the number routine loaded it
+                uses_last = any(st_["callee"]["q"].endswith("Latch::last") for f_ in prog.q("JsonDeserializer::parse") for _, st_ in f_.calls())
+                if uses_last:
+                    # the abstract run bounds the unrolling of the 63-character loop, so the exit through the
+                    # buffer-full test is decided structurally: after the last move() on any path to an Ok
+                    # return, current() is called again
+                    from lib import typestate as _ts
+                    from rules import jsonparse as _jp
+
+                    def _tr(fn_, e_, s_):
+                        st_ = fn_.s(e_)
+                        if st_["k"] in P.CALL_KINDS and "callee" in st_ and "JsonDeserializer" in st_["callee"]["q"]:
+                            n_ = st_["callee"]["q"].split("::")[-1]
+                            if n_ == "move":
+                                return ("moved",)
+                            if n_ == "current":
+                                return ("looked",)
+                        return (s_,)
+
+                    def _ck(fn_, e_, s_):
+                        if s_ == "moved" and _jp.returns_code(fn_, e_, "Ok"):
+                            return "Ok after move() without current()"
+                        return None
+                    reps, _x, err_ = _ts.analyse(fn, "looked", _tr, None, _ck)
+                    okl = U not in got and bool(got) and not reps and not err_
+                    ctx.ob(rule2, "parseNumericValue always returns Ok with the following character loaded", okl, fn.where,
+                           "Ok-exit latch classes %s; parse() reads Latch::last() as the character after the number" % sorted(got) if okl else
+                           "parseNumericValue can return Ok without having looked at the next character (latch class U), but parse() takes "
+                           "Latch::last() for the character that follows a float: it then sees the number's own last character and a "
+                           "valid 63-character number is rejected with InvalidInput")
             if viol:
                 f2, e, g, blocks = viol[0]
                 ctx.ob(rule, "%s never reads after the terminator" % nm, False, f2.loc(e),
